@@ -1,7 +1,7 @@
 CHECK = dict(
     level='model_checking', engine='vsched',
     parts=[dict(name='c04', src=['harness/c04_messageq.c'], workers=64,
-                objs=[('@VERIF@/harness/c04_scn.c', ['-fsanitize=thread'])],
+                objs=[('@VERIF@/harness/c04_scn.c', ['-fsanitize=thread', '-Dmemset=vs_memset', '-Dmemcpy=vs_memcpy', '-Dmemmove=vs_memmove'])],
                 deadline=dict(quick=400, thorough=3000)),
            dict(name='c04deep', src=['harness/c04_deep.c'], workers=12,
                 objs=[('@REPO@/librfn/messageq.c', ['-fsanitize=thread'])],
